@@ -409,7 +409,8 @@ Proof.
       * unfold match_all_filtered. cbn [elems]. rewrite gbind_gfor. cbn [sel_children]. rewrite flat_map_map.
         unfold enumerate. apply agree_gfor_enum. intros k e _. cbn [x_tp x_anc set_tl].
         rewrite look_elim by exact Hlt. apply IHreq.
-      * destruct els; [apply agree_nil | apply agree_sout].
+      * unfold match_all_filtered. rewrite gbind_gfor. cbn [sel_children]. rewrite flat_map_map.
+        apply agree_gfor. intros e _. cbn [x_tp x_anc set_tl]. rewrite look_elim by exact Hlt. apply IHreq.
     + rewrite (skipn_none _ _ En'). cbn [negb is_nil_segs andb].
       apply (agree_gbind _ _ _ (cont_of true (SS []))); [reflexivity | apply match_all_sem |].
       intros x Hx. specialize (HK _ x Hx). rewrite (skipn_none _ _ En') in HK. exact HK.
